@@ -51,6 +51,7 @@ type SHist struct {
 	Isolate  string // buffer-isolation result
 	Skipped  bool
 	File     []byte // fsenc: raw content of the key's file after a Set
+	SweepN   int    // sweep: files tried
 }
 
 type keyLister interface {
@@ -342,6 +343,46 @@ func (r *Run) sclient(phase, ci int, cl *SClient) {
 			h.OK = changed
 			r.fired("disk.at-rest-" + op.Mode)
 			ret(fmt.Sprintf("corrupt changed=%v", changed))
+		case "sweep":
+			// a large encrypted file, cut at every length (Mode trunc) or joined at every offset with the
+			// previous ciphertext of the same value length (Mode splice): none of these files may be accepted
+			path, cur := r.onlyFileNamed()
+			var prev []byte
+			for k := len(r.SHists) - 2; k >= 0 && op.Mode == "splice"; k-- {
+				if p := r.SHists[k]; p.Key == key && len(p.File) == len(cur) && !bytes.Equal(p.File, cur) {
+					prev = p.File
+					break
+				}
+			}
+			h.Inv = r.Sim.Event(g, "s.sweep", fmt.Sprintf("%s mode=%s len=%d", path, op.Mode, len(cur)))
+			h.Status = -1
+			step := max(op.Arg, 1)
+			for k := 0; k < len(cur) && path != "" && h.Status < 0; k += step {
+				var mod []byte
+				if op.Mode == "splice" {
+					if prev == nil || k == 0 {
+						continue
+					}
+					mod = append(append([]byte(nil), prev[:k]...), cur[k:]...)
+					if bytes.Equal(mod, cur) || bytes.Equal(mod, prev) {
+						continue
+					}
+				} else {
+					mod = cur[:k]
+				}
+				_ = simos.Corrupt(path, func([]byte) []byte { return mod })
+				got, err := conn.Get(key)
+				h.SweepN++
+				if err == nil {
+					h.Status, h.Got = k, got
+				}
+			}
+			if path != "" {
+				_ = simos.Corrupt(path, func([]byte) []byte { return cur })
+			}
+			h.OK = h.Status >= 0
+			r.fired("disk.at-rest-sweep-" + op.Mode)
+			ret(fmt.Sprintf("sweep n=%d accepted=%d", h.SweepN, h.Status))
 		case "rekey":
 			h.Inv = r.Sim.Event(g, "s.rekey", "")
 			r.encKey = []string{"ZmVkY2JhOTg3NjU0MzIxMGZlZGNiYTk4NzY1NDMyMTA=", "MDEyMzQ1Njc4OWFiY2RlZg==", "ZmVkY2JhOTg3NjU0MzIxMGZlZGNiYTk4"}[op.Arg%3]
@@ -769,6 +810,21 @@ func JudgeSsim(r *Run) *Judged {
 			}
 		}
 	}
+	// a Get answers with a value or with the not-exist report: without any fault, wrong key or modification at
+	// rest nothing else can be the matter, whatever other clients do to the key meanwhile
+	undisturbed := !firedPrefix(r.Faults, "disk.") && !firedPrefix(r.Faults, "config.") && r.Faults["store.op-timeout"] == 0 && r.Crashes == 0
+	for _, h := range r.SHists {
+		if (h.Op.Kind == "get" || h.Op.Kind == "get-mutate") && h.Ret != 0 && undisturbed && !h.API {
+			j.count("C15", "get-error")
+			if !h.OK && !h.NotEx {
+				sig := "sequential"
+				if conc {
+					sig = "concurrent"
+				}
+				vfail("C15", "get-error", sig, h, "Get of key %q returned neither a value nor the not-exist report, on a backend without any fault: %s", clip(h.Key), h.Err)
+			}
+		}
+	}
 	if r.Scn.Backend != "mem" || conc {
 		judgeLinearizable(r, j, vfail)
 	}
@@ -796,6 +852,11 @@ func JudgeSsim(r *Run) *Judged {
 			case "corrupt":
 				if h.OK {
 					tampered[h.Key] = h.Op.Mode
+				}
+			case "sweep":
+				j.Judgements["C17/tamper-accepted"] += h.SweepN
+				if h.OK {
+					vfail("C17", "tamper-accepted", "large-"+h.Op.Mode, h, "Get returned %d bytes from a %s file: %s at byte %d", len(h.Got), map[string]string{"trunc": "truncated", "splice": "spliced"}[h.Op.Mode], h.Op.Mode, h.Status)
 				}
 			case "rekey":
 				wrongKey = h.OK
